@@ -1,6 +1,7 @@
 package main
 
 import (
+	"strings"
 	"encoding/json"
 	"fmt"
 	"math"
@@ -45,7 +46,87 @@ func genInt(r *vh.Rng, bits uint) int64 {
 
 var strLens = []int{0, 0, 1, 2, 5, 17, 252, 253, 254, 255, 256, 300}
 
+// specialContent: byte strings whose CONTENT looks like something structured — network addresses of
+// every family and notable value, text in and out of UTF-8, numeric-looking text.  A wire format
+// carries them byte for byte; an encoder that "normalises" one of them (compacts an IPv4-mapped
+// address, trims, re-encodes, parses a number) breaks the round trip for exactly these values.
+type special struct {
+	label string
+	b     []byte
+}
+
+func cat(parts ...[]byte) []byte {
+	var o []byte
+	for _, p := range parts {
+		o = append(o, p...)
+	}
+	return o
+}
+func rep(b byte, n int) []byte {
+	o := make([]byte, n)
+	for i := range o {
+		o[i] = b
+	}
+	return o
+}
+
+var specialPool = func() []special {
+	v4s := map[string][]byte{"1.2.3.4": {1, 2, 3, 4}, "127.0.0.1": {127, 0, 0, 1}, "0.0.0.0": {0, 0, 0, 0},
+		"255.255.255.255": {255, 255, 255, 255}, "10.0.0.255": {10, 0, 0, 255}, "192.168.1.1": {192, 168, 1, 1}}
+	var p []special
+	for _, name := range []string{"1.2.3.4", "127.0.0.1", "0.0.0.0", "255.255.255.255", "10.0.0.255", "192.168.1.1"} {
+		a := v4s[name]
+		p = append(p, special{"ipv4:" + name, a})
+		p = append(p, special{"ipv4-mapped-ipv6:" + name, cat(rep(0, 10), []byte{0xff, 0xff}, a)})
+		p = append(p, special{"ipv4-compatible-ipv6:" + name, cat(rep(0, 12), a)})
+		p = append(p, special{"text-address:" + name, []byte(name)})
+		p = append(p, special{"text-address:::ffff:" + name, []byte("::ffff:" + name)})
+	}
+	p = append(p,
+		special{"ipv6:::1", cat(rep(0, 15), []byte{1})},
+		special{"ipv6:::", rep(0, 16)},
+		special{"ipv6:all-ff", rep(0xff, 16)},
+		special{"ipv6:2001:db8::1", cat([]byte{0x20, 0x01, 0x0d, 0xb8}, rep(0, 11), []byte{1})},
+		special{"ipv6:fe80::1", cat([]byte{0xfe, 0x80}, rep(0, 13), []byte{1})},
+		special{"ipv6:64:ff9b::1.2.3.4", cat([]byte{0, 0x64, 0xff, 0x9b}, rep(0, 8), []byte{1, 2, 3, 4})},
+		special{"almost-mapped:10x00+fffe", cat(rep(0, 10), []byte{0xff, 0xfe, 1, 2, 3, 4})},
+		special{"almost-mapped:9x00", cat(rep(0, 9), []byte{1, 0xff, 0xff, 1, 2, 3, 4})},
+		special{"text-address:::1", []byte("::1")},
+		special{"text-address:[::1]:80", []byte("[::1]:80")},
+	)
+	for _, n := range []int{0, 1, 3, 4, 5, 8, 15, 16, 17, 32} { // address lengths and off-by-one, all-zero and all-ones and counting
+		p = append(p, special{fmt.Sprintf("len%d:zero", n), rep(0, n)})
+		if n > 0 {
+			p = append(p, special{fmt.Sprintf("len%d:ff", n), rep(0xff, n)})
+			c := make([]byte, n)
+			for i := range c {
+				c[i] = byte(i + 1)
+			}
+			p = append(p, special{fmt.Sprintf("len%d:counting", n), c})
+		}
+	}
+	for _, t := range []struct{ l, s string }{
+		{"utf8:2-byte", "h\u00e9llo"}, {"utf8:3-byte", "\u65e5\u672c\u8a9e"}, {"utf8:4-byte", "\U0001F600"}, {"utf8:bom", "\ufeffx"},
+		{"utf8:combining", "e\u0301"}, {"utf8:replacement-char", "\ufffd"},
+		{"invalid-utf8:ff-fe", "\xff\xfe"}, {"invalid-utf8:lone-continuation", "a\x80b"}, {"invalid-utf8:truncated", "\xe2\x82"},
+		{"invalid-utf8:overlong", "\xc0\xaf"}, {"invalid-utf8:surrogate", "\xed\xa0\x80"}, {"invalid-utf8:latin1", "caf\xe9"},
+		{"numeric:0", "0"}, {"numeric:00", "00"}, {"numeric:007", "007"}, {"numeric:-1", "-1"}, {"numeric:+1", "+1"}, {"numeric:-0", "-0"},
+		{"numeric:1e3", "1e3"}, {"numeric:0x10", "0x10"}, {"numeric:1.0", "1.0"}, {"numeric:.5", ".5"}, {"numeric:spaces", " 12 "},
+		{"numeric:int64-max+1", "9223372036854775808"}, {"numeric:int32-min", "-2147483648"}, {"numeric:NaN", "NaN"}, {"numeric:Inf", "-Inf"},
+		{"keyword:null", "null"}, {"keyword:nil", "nil"}, {"keyword:true", "true"}, {"keyword:empty-json", "{}"},
+		{"space:single", " "}, {"space:newline", "\n"}, {"space:crlf", "a\r\nb"}, {"space:tab", "\t"}, {"space:leading-trailing", "  x  "},
+		{"nul:single", "\x00"}, {"nul:trailing", "a\x00"}, {"nul:leading", "\x00a"}, {"case:mixed", "AbC"}, {"percent:encoded", "%41%00"},
+		{"url:query", "/a/b?x=1&y=2#f"}, {"sql:quote", "it's \"q\""},
+	} {
+		p = append(p, special{t.l, []byte(t.s)})
+	}
+	return p
+}()
+
 func genBytes(r *vh.Rng, big bool) []byte {
+	if r.Chance(18) { // content that looks like an address / text / number
+		return append([]byte{}, specialPool[r.Intn(len(specialPool))].b...)
+	}
 	n := 0
 	switch {
 	case big && r.Chance(2):
@@ -259,6 +340,56 @@ func fillTransient(r *vh.Rng, o interface{}, s *spec) {
 	}
 }
 
+// genSpecialContent: for every []byte and string field of every type, one object per special
+// value (the other fields random), so that a writer or reader that treats such content specially
+// is exhibited on exactly that value; steps also inside a short stream.
+func genSpecialContent(c *ctx, r *vh.Rng) {
+	for _, s := range specs {
+		probe := s.mk()
+		var fields []string
+		for _, l := range leaves(probe, s) {
+			k := l.v.Kind()
+			if k == reflect.String || (k == reflect.Slice && l.v.Type().Elem().Kind() == reflect.Uint8) {
+				fields = append(fields, l.name)
+			}
+		}
+		for _, f := range fields {
+			if s.fam == "pack" && (f == "Steps" || f == "Profile") {
+				continue // holds a step stream (checked through SetProfile), not free content
+			}
+			for _, sp := range specialPool {
+				o := newFilled(r, s, false)
+				for _, l := range leaves(o, s) {
+					if l.name != f {
+						continue
+					}
+					if l.v.Kind() == reflect.String {
+						l.v.SetString(string(sp.b))
+					} else {
+						l.v.SetBytes(append([]byte{}, sp.b...))
+					}
+				}
+				if h, ok := o.(*step.HttpcStepX); ok {
+					h.Version = 2 // the text fields travel only in version 2
+				}
+				if q, ok := o.(*step.SqlStep_3); ok {
+					q.Opt |= 1 // P1/P2 travel only with bit 1
+				}
+				c.rep.Count("special-content:" + strings.SplitN(sp.label, ":", 2)[0])
+				c.rep.Count("special-field:" + s.name + "." + f)
+				if s.fam == "step" && r.Chance(25) {
+					items := genSteps(r, r.Intn(3))
+					items = append(items, item{s, o})
+					items = append(items, genSteps(r, r.Intn(2))...)
+					c.checkStream(items)
+				} else {
+					c.checkSingle(s, o, nil)
+				}
+			}
+		}
+	}
+}
+
 func newFilled(r *vh.Rng, s *spec, big bool) interface{} {
 	o := s.mk()
 	fill(r, o, s, big)
@@ -405,6 +536,8 @@ func generate(c *ctx, r *vh.Rng) {
 		}
 		c.checkStream(items)
 	}
+	// 3a. every byte-slice / text field of every type with every special-content value
+	genSpecialContent(c, r)
 	// 3b. encodings of older agents, raw streams behind unregistered type codes
 	genLegacy(c, r)
 	genRawStreams(c, r)
